@@ -272,8 +272,8 @@ static int
 archive_write_gnutar_header(struct archive_write *a,
      struct archive_entry *entry)
 {
-	char buff[512];
-	int r, ret, ret2 = ARCHIVE_OK;
+	char buff[512], mainbuff[512];
+	int r, ret, ret_main, ret2 = ARCHIVE_OK;
 	char tartype;
 	struct gnutar *gnutar;
 	struct archive_string_conv *sconv;
@@ -487,6 +487,16 @@ archive_write_gnutar_header(struct archive_write *a,
 			goto exit_write_header;
 		}
 
+	/*
+	 * Likewise format the entry's own header first: if a field does not
+	 * fit, the long-name headers must not be written either.
+	 */
+	ret_main = archive_format_gnutar_header(a, mainbuff, entry, tartype);
+	if (ret_main < ARCHIVE_WARN) {
+		ret = ret_main;
+		goto exit_write_header;
+	}
+
 	if (gnutar->linkname_length > GNUTAR_linkname_size) {
 		size_t length = gnutar->linkname_length + 1;
 		struct archive_entry *temp = archive_entry_new2(&a->archive);
@@ -545,12 +555,10 @@ archive_write_gnutar_header(struct archive_write *a,
 			goto exit_write_header;
 	}
 
-	ret = archive_format_gnutar_header(a, buff, entry, tartype);
-	if (ret < ARCHIVE_WARN)
-		goto exit_write_header;
+	ret = ret_main;
 	if (ret2 < ret)
 		ret = ret2;
-	ret2 = __archive_write_output(a, buff, 512);
+	ret2 = __archive_write_output(a, mainbuff, 512);
 	if (ret2 < ARCHIVE_WARN) {
 		ret = ret2;
 		goto exit_write_header;
